@@ -60,7 +60,7 @@ NO_PANIC += ["std::iter::Iterator::peekable", "std::iter::Peekable::peek", "std:
              "std::iter::DoubleEndedIterator::", "std::iter::ExactSizeIterator::len", "std::ops::FnMut::call_mut", "std::ops::FnOnce::call_once"]
 NO_PANIC += ["std::string::String::as_str", "std::str::traits::eq", "std::vec::Vec::as_slice", "std::string::String::as_bytes", "std::str::eq",
              "std::cmp::PartialEq::eq", "std::vec::Vec::iter", "std::vec::Vec::as_ptr", "std::slice::first", "std::slice::get"]
-NO_PANIC += ["clap::App::new", "clap::App::version", "clap::App::about", "clap::App::arg", "clap::App::get_matches", "clap::Arg::with_name",
+NO_PANIC += ["clap::App::", "clap::Arg::", "clap::ArgMatches::", "clap::App::new", "clap::App::version", "clap::App::about", "clap::App::arg", "clap::App::get_matches", "clap::Arg::with_name",
              "clap::Arg::index", "clap::Arg::required", "clap::ArgMatches::value_of", "std::fs::File::open", "std::io::Read::read_to_end",
              "std::io::_print"]
 
@@ -201,5 +201,5 @@ audit("ModuleHeader::generator", "assert", "Overflow(Shr)", 1, "CONST", "shift b
 audit("version::create_version_from_word", "assert", "BoundsCheck", 2, "CONST", "bytes[2], bytes[1] of a [u8; 4]")
 audit("CoreInstructionTable::get", "call", "Option::expect", 1, "FACT", "every Op variant has a table row (C09 R-TAB-1 bijection)", "tab1")
 # dis/main.rs (C20)
-audit("rspirv_dis::main", "call", "Option::unwrap", 1, "FACT", "value_of(\"input\").unwrap(): the argument is declared required(true), clap exits before main continues otherwise", "main_required_arg")
-audit("rspirv_dis::main", "call", "Result::expect", 2, "ASSUMED", "File::open / read_to_end: the property quantifies over readable input files")
+audit("rspirv_dis::", "call", "Option::unwrap", 1, "FACT", "value_of(\"input\").unwrap(): the argument is declared required(true), clap exits before main continues otherwise", "main_required_arg")
+audit("rspirv_dis::", "call", "Result::expect", 2, "ASSUMED", "File::open / read_to_end: the property quantifies over readable input files")
